@@ -5,7 +5,8 @@ hyper_client::{query_pairs, get_path_and_canonicalized_parameters, headers_to_ca
 as_sig_input, request_to_sign_input, build_request, should_skip_sig} and helpers::compute_signature
 through harness/src/bin/c04.rs (hook H3 taps).
 
-Legs (all direct calls; `e2e_leg` below is the place for the end-to-end leg):
+Legs (U, H, S, B are direct calls; E is the end-to-end leg `e2e_leg`, an extra function over the shared
+runner tools/e2e.py, on by default, VERIF_C04_E2E=0 switches it off):
   U  (method, target)            query_pairs / canonical parameters / should_skip_sig vs the model;
                                   property: the exemption list is exactly the documented one
   H  header lists                 headers_to_canonicalized_string vs the model
@@ -17,6 +18,10 @@ Legs (all direct calls; `e2e_leg` below is the place for the end-to-end leg):
   B  build_request                the agent's own calls: header list and signed string vs the
                                   model; property on the request as built: one authorization header
                                   `Azure-HMAC-SHA256 <guid> <hex MAC>`, MAC over what is sent
+
+  E  relayed requests             the REAL ProxyServer relays keep-alive connections to a mock host with a
+                                  key latched, rotated (update_key) or cleared between requests, bodies
+                                  with Content-Length or chunked; judged on the raw bytes the host received
 
 Known finding F3 (known_findings.d/C04.json): inputs in the classes `kv_collision` /
 `repeated_header_name` / `header_value_not_utf8` fail the coverage predicate; they are reported as KNOWN-FINDING only when
@@ -387,9 +392,34 @@ def coq_cases(ctx, name, calls, per_expr=20, shard=5):
     return [r for chunk in res for r in chunk]
 
 
+# ------------------------------------------------------------------------------------------
+# end-to-end leg (shared runner tools/e2e.py): an extra function, it only extends run()'s lists
+# ------------------------------------------------------------------------------------------
+ID_HEADER = b"x-c04-id"
+
+
+def dechunk(raw):
+    out, pos = b"", 0
+    while True:
+        le = raw.find(b"\r\n", pos)
+        if le < 0:
+            return None
+        try:
+            n = int(raw[pos:le].split(b";")[0].strip(), 16)
+        except ValueError:
+            return None
+        pos = le + 2
+        if n == 0:
+            return out
+        if len(raw) < pos + n + 2:
+            return None
+        out += raw[pos:pos + n]
+        pos += n + 2
+
+
 def parse_raw_request(raw):
     """one HTTP/1.1 request as the mock host received it -> (method, target, [(name, value)], body);
-    None when incomplete or chunked"""
+    header values are stripped of SP / HTAB only (what an HTTP parser does); None when incomplete"""
     he = raw.find(b"\r\n\r\n")
     if he < 0:
         return None
@@ -404,7 +434,8 @@ def parse_raw_request(raw):
             return None
         headers.append((n, v.strip(b" \t")))
     if any(n.lower() == b"transfer-encoding" for n, _ in headers):
-        return None
+        body = dechunk(raw[he + 4:])
+        return None if body is None else (parts[0], parts[1], headers, body)
     cl = [v for n, v in headers if n.lower() == b"content-length"]
     n = int(cl[0]) if cl and cl[0].isdigit() else 0
     body = raw[he + 4:he + 4 + n]
@@ -413,58 +444,112 @@ def parse_raw_request(raw):
     return parts[0], parts[1], headers, body
 
 
-# ------------------------------------------------------------------------------------------
-# end-to-end leg (not run in this round; see notes/C04.md)
-# ------------------------------------------------------------------------------------------
-def e2e_leg(ctx, auth_name, requests, key):
-    """End-to-end leg through the shared runner (tools/e2e.py): `requests` is a list of
-    (method, target, headers, body) to be relayed by the REAL ProxyServer with `key`
-    = {"guid":..., "key": <hex>} latched.  For every request seen by the mock host the same two
-    judgements as in the S leg apply, on the RAW bytes the host received:
-      * property: exactly one authorization header, `Azure-HMAC-SHA256 <guid> <hex>`, whose MAC equals
-        HMAC-SHA256(key, spec_string_to_sign(request as received minus that header));
-      * correspondence: the MAC equals HMAC(key, Canon.as_sig_input of the request as received).
-    Returns (disagreements, prop_failures, cases) in the shapes `run` uses.  Wire it in by calling
-    it from run() and extending the three lists; nothing else changes."""
+def e2e_leg(ctx, auth_name, connections):
+    """`connections`: list of {"initial_key": key|None, "requests": [{"method","target","headers","body",
+    "chunked": sizes|None, "key_after": key|None|"same"}]}, key = {"guid": str, "key": hex str}.
+    Each connection is one scenario of the shared runner: the REAL ProxyServer relays the requests of one
+    keep-alive client connection to the mock WireServer; `key_after` latches another key / clears it
+    (update_key / clear_key through the real KeyKeeperSharedState) after the request has been answered.
+    Every request carries a unique x-c04-id header, so what the host received is paired with what was
+    sent and with the key latched WHEN IT WAS RELAYED.  Judgements on the raw bytes the host received:
+      * property: with a key latched and the request not exempt, exactly one authorization header
+        `Azure-HMAC-SHA256 <guid> <hex>`, MAC = HMAC-SHA256(that key, StringToSign of every header and
+        parameter received); failures carry the known-finding classes like the S leg's;
+      * correspondence: Canon.relay -- the authorization value equals HMAC(key, Canon.as_sig_input of
+        the request as received); without a key / exempt: forwarded as it came.
+    Returns (disagreements, prop_failures, number of requests seen by the host)."""
     import e2e
-    scs = []
-    for i, (m, t, hs, body) in enumerate(requests):
-        raw = e2e.http_request(m.decode("latin1"), t.decode("latin1"),
-                               [(n.decode("latin1"), v.decode("latin1")) for n, v in hs], body)
-        scs.append(e2e.scenario("c04-%d" % i, [e2e.conn([raw], audit=e2e.audit(e2e.WIRESERVER, uid=0))], key=key))
+    scs, sent = [], {}
+    nid = 0
+    for ci, c in enumerate(connections):
+        key = c["initial_key"]
+        reqs = []
+        for r in c["requests"]:
+            nid += 1
+            rid = b"%d" % nid
+            hs = list(r["headers"]) + [(ID_HEADER, rid)]
+            raw = e2e.http_request(r["method"].decode("latin1"), r["target"].decode("latin1"),
+                                   [(n.decode("latin1"), v.decode("latin1")) for n, v in hs], r["body"], chunked=r.get("chunked"))
+            sent[rid] = {"key": key, "client_auth": [v for n, v in hs if n.lower() == auth_name], "sent": r, "conn": ci}
+            ka = r.get("key_after", "same")
+            if ka == "same":
+                reqs.append(e2e.req(raw))
+            elif ka is None:
+                reqs.append(e2e.req(raw, ops_after=[{"op": "clear_key"}]))
+                key = None
+            else:
+                reqs.append(e2e.req(raw, ops_after=[{"op": "update_key", "guid": ka["guid"], "key": ka["key"], "incarnation": nid}]))
+                key = ka
+        scs.append(e2e.scenario("c04-%d" % ci, [e2e.conn(reqs, audit=e2e.audit(e2e.WIRESERVER, uid=0))], key=c["initial_key"]))
     results = e2e.run_scenarios(ctx, scs)
-    kb = strict_unhex(key["key"].encode())
-    guid = key["guid"].encode()
     calls, seen = [], []
-    for (m, t, hs, body), r in zip(requests, results):
+    for r in results:
         for c in r.get("upstream", {}).get(e2e.WIRESERVER, []):
-            msg = parse_raw_request(c.get("bytes") or b"")      # own parser: header values stripped of SP / HTAB only
-            if msg is None:
-                continue
-            method, target, headers, rbody = msg
-            path, query = split_target(target)
-            calls.append("c04_sig_case %s %s %s %s %s" % (cb(method), cb(rbody), cb(path), cob(query), cpairs(headers)))
-            seen.append((method, target, path, query, headers, rbody, [v for n, v in hs if n.lower() == auth_name]))
+            raw = c.get("bytes") or b""
+            for off in c.get("requests") or []:
+                msg = parse_raw_request(raw[off[0]:off[2]])
+                if msg is None:
+                    continue
+                method, target, headers, rbody = msg
+                rid = [v for n, v in headers if n.lower() == ID_HEADER]
+                if len(rid) != 1 or rid[0] not in sent:
+                    continue
+                path, query = split_target(target)
+                calls.append("c04_sig_case %s %s %s %s %s" % (cb(method), cb(rbody), cb(path), cob(query), cpairs(headers)))
+                seen.append((sent[rid[0]], method, target, path, query, headers, rbody))
     disagreements, failures = [], []
-    for (method, target, path, query, headers, body, client_auth), res in zip(seen, coq_cases(ctx, "e2e", calls, per_expr=10)):
-        case = {"leg": "e2e", "method": method, "target": target, "headers_received": headers, "body_len": len(body)}
+    for (info, method, target, path, query, headers, body), res in zip(seen, coq_cases(ctx, "e2e", calls, per_expr=10)):
+        key = info["key"]
+        case = {"leg": "e2e", "method": method, "target": target, "headers_received": headers, "body_len": len(body),
+                "key_latched_when_relayed": key, "chunked_by_client": info["sent"].get("chunked"), "connection": info["conn"]}
         auth = [v for n, v in headers if n.lower() == auth_name]
-        if (method, target.lower()) in DOCUMENTED_EXEMPT:
-            # Canon.relay: an exempt request goes out exactly as it came (a client-supplied header included)
-            if auth != client_auth:
-                disagreements.append({"case": case, "model": ["exempt request forwarded untouched", client_auth], "impl": auth})
+        if key is None or (method, target.lower()) in DOCUMENTED_EXEMPT:
+            # Canon.relay / sign_and_forward without a key: the request goes out as it came
+            if auth != info["client_auth"]:
+                disagreements.append({"case": case, "model": ["forwarded untouched", info["client_auth"]], "impl": auth})
             continue
+        kb, guid = strict_unhex(key["key"].encode()), key["guid"].encode()
         model_auth = SCHEME + b" " + guid + b" " + hmac_hex(kb, tb(res[0]))
         if auth != [model_auth]:
             disagreements.append({"case": case, "model": model_auth, "impl": auth})
         spec = spec_string_to_sign(auth_name, method, body, headers, path, query)
         if auth != [SCHEME + b" " + guid + b" " + hmac_hex(kb, spec)]:
             pairs = spec_query_pairs(query)
-            cls = classes_of(auth_name, pairs, headers)
             failures.append({"case": dict(case, pairs=pairs),
-                             "why": "the request received by the host does not carry exactly one authorization header whose MAC covers every header and every parameter received",
-                             "impl": {"authorization": auth, "classes": cls, "explained_by_model": auth == [model_auth]}})
+                             "why": "the request received by the host does not carry exactly one authorization header `Azure-HMAC-SHA256 <guid of the "
+                                    "latched key> <hex MAC>` whose MAC covers every header and every parameter received",
+                             "impl": {"authorization": auth, "classes": classes_of(auth_name, pairs, headers), "explained_by_model": auth == [model_auth]}})
     return disagreements, failures, len(seen)
+
+
+def gen_e2e_connections(rng, auth_name, n_single, n_multi):
+    K1 = {"guid": "9cf81e97-0316-4ad3-94a7-8ccbdee8ccbf", "key": "4A404E635266556A586E3272357538782F413F4428472B4B6250645367566B59"}
+    K2 = {"guid": "5d1f2a3b-7c44-4e0a-9b21-0f6e8d7c6b5a", "key": "00112233445566778899aabbccddeeff0123456789abcdeffedcba9876543210"}
+    hop = (b"host", b"content-length", b"transfer-encoding", b"connection", b"expect", b"upgrade", b"te", b"trailer", ID_HEADER)
+
+    def one(cls, allow_exempt=True):
+        m = rng.choice([b"GET", b"POST", b"PUT", b"DELETE"])
+        t = gen_target(rng, cls).split(b"#")[0]
+        while b".." in t or (not allow_exempt and (m, t.lower()) in DOCUMENTED_EXEMPT):
+            t = gen_target(rng, cls).split(b"#")[0]
+        hs = [(n, v.strip(b" \t")) for n, v in gen_headers(rng, auth_name, cls) if n.lower() not in hop]
+        body = gen_body(rng) if m in (b"POST", b"PUT") else b""
+        chunked = [rng.choice([1, 3, 7, 64])] if body and rng.random() < 0.35 else None
+        return {"method": m, "target": t, "headers": hs, "body": body, "chunked": chunked}
+    conns = []
+    for _ in range(n_single):
+        conns.append({"initial_key": K1, "requests": [one(rng.random() < 0.3)]})
+    for i in range(n_multi):
+        k = i % 3
+        if k == 0:      # accepted under key 1, rotated to key 2, then cleared
+            rs = [dict(one(False, False), key_after=K2), dict(one(False, False), key_after=None), one(False, False)]
+            conns.append({"initial_key": K1, "requests": rs})
+        elif k == 1:    # accepted before any key is latched
+            rs = [dict(one(False, False), key_after=K1), one(False, False), dict(one(False, False), key_after=K2), one(False, False)]
+            conns.append({"initial_key": None, "requests": rs})
+        else:           # several requests under one key
+            conns.append({"initial_key": K2, "requests": [one(False), one(rng.random() < 0.3), one(False)]})
+    return conns
 
 
 # ------------------------------------------------------------------------------------------
@@ -810,17 +895,24 @@ def run(ctx):
             count("B_unsigned")
 
     # ---------------- optional end-to-end leg (off by default in this round) ----------------
-    if os.environ.get("VERIF_C04_E2E") == "1":
-        reqs = []
-        for _ in range(40 if ctx.quick else 400):
-            cls = rng.random() < 0.3
-            hs = [(n, v.strip(b" \t")) for n, v in gen_headers(rng, AUTH, cls) if n.lower() not in (b"host", b"content-length", b"transfer-encoding", b"connection", b"expect", b"upgrade")]
-            reqs.append((rng.choice([b"GET", b"POST", b"PUT", b"DELETE"]), gen_target(rng, cls).split(b"#")[0], hs, gen_body(rng)))
-        d2, f2, n2 = e2e_leg(ctx, AUTH, reqs, {"guid": "abcdef01-2345-6789-abcd-ef0123456789", "key": "00ff" * 16})
+    if os.environ.get("VERIF_C04_E2E", "1") != "0":
+        conns = gen_e2e_connections(rng, AUTH, *((40, 12) if ctx.quick else (400, 90)))
+        try:
+            d2, f2, n2 = e2e_leg(ctx, AUTH, conns)
+        except (vplib.Violation, KeyboardInterrupt):
+            raise
+        except Exception as ex:      # the shared runner itself failed: no verdict from this leg, say so
+            d2, f2, n2 = [], [], 0
+            ctx.notes.append("e2e leg not evaluated (runner failure): %r" % (ex,))
+            count("E2E_runner_failures")
         disagreements += d2
         failures += f2
+        count("E2E_connections", len(conns))
+        count("E2E_requests_sent", sum(len(c["requests"]) for c in conns))
         count("E2E_requests_seen_by_mock_host", n2)
         ctx.log("e2e leg: %d requests seen upstream" % n2)
+    else:
+        count("E2E_leg_switched_off")
 
     # report the simplest failing input: outside the known classes first, then the shortest script line
     def fkey(f):
@@ -861,8 +953,8 @@ def run(ctx):
         "the model is tied to the code by differential execution on the cases above, not by translation",
         "HMAC-SHA256 is a function (no other property assumed); SHA-256/HMAC of the real code is compared with Python's hmac/hashlib on every signed case",
         "hyper/http behaviour (HeaderMap insert/append/iter, Uri accessors, Builder *_ref) is modelled, exercised through the real code on every case",
-        "the forward step of handle_request_with_signature (insert the header into the request built from the same head) is covered by theorems over "
-        "the model and by the S leg's direct calls to as_sig_input/compute_signature; the raw bytes at a mock host are the end-to-end leg's subject (e2e_leg, not run in this round)",
+        "the forward step of handle_request_with_signature (insert the header into the request built from the same head, key read when the request is relayed) "
+        "is covered by theorems over the model and by the E leg on the raw bytes a mock host receives (shared runner tools/e2e.py; hook H1 supplies the audit record)",
         "URI text is ASCII (http::Uri guarantees it); header values are decoded by String::from_utf8_lossy and trimmed by str::trim (Unicode White_Space), both modelled (Canon.utf8_lossy, Canon.trim_u)",
     ]
     verdict(ctx, proofs_ok, detail, disagreements, failures, known_filter,
